@@ -154,14 +154,23 @@ impl Stitch {
                         } else {
                             return Some(entry);
                         }
-                    } else if let Some(hunk) = index_hunks.next().await {
-                        if let Some(last_apath) = hunk.last().map(|entry| entry.apath.clone()) {
-                            self.last_apath = Some(last_apath);
-                        }
-                        *buffered_entries = hunk.into_iter().peekable();
-                        continue;
                     } else {
-                        State::AfterBand(*band_id)
+                        let next_hunk = index_hunks.next().await;
+                        // Hunks that are missing or can't be read are skipped: say so, rather
+                        // than silently leaving out whatever they listed.
+                        for err in index_hunks.take_errors() {
+                            self.monitor.error(err);
+                        }
+                        if let Some(hunk) = next_hunk {
+                            if let Some(last_apath) = hunk.last().map(|entry| entry.apath.clone())
+                            {
+                                self.last_apath = Some(last_apath);
+                            }
+                            *buffered_entries = hunk.into_iter().peekable();
+                            continue;
+                        } else {
+                            State::AfterBand(*band_id)
+                        }
                     }
                 }
                 State::BeforeBand(band_id) => {
@@ -169,6 +178,11 @@ impl Stitch {
                     match Band::open(&self.archive, *band_id).await {
                         Ok(band) => match band.index().try_iter_available_hunks().await {
                             Ok(mut index_hunks) => {
+                                // A closed band's tail says how many hunks there should be.
+                                if let Ok(info) = band.get_info().await {
+                                    index_hunks =
+                                        index_hunks.expect_hunk_count(info.index_hunk_count);
+                                }
                                 if let Some(last) = &self.last_apath {
                                     index_hunks = index_hunks.advance_to_after(last)
                                 }
